@@ -1920,7 +1920,7 @@ def run(ctx):
     nontrivial |= run_args_correspondence(ctx, factory, n_args)
     n_bulk = (1500 if thorough else 150) * ctx.scale
     nontrivial |= run_bulk_correspondence(ctx, n_bulk)
-    n_alias = (3000 if thorough else 200) * ctx.scale
+    n_alias = (3000 if thorough else 150) * ctx.scale
     nontrivial |= run_alias_correspondence(ctx, n_alias)
 
     # ---------------- (b) differential
